@@ -94,3 +94,9 @@ ASSUME.update({
          "the translator reports the shape of two pieces of source (the for-condition of handleEnumerateBlobs mentions Before; the doStat callback in StatBlobs does not call fn); what they do is covered by the correspondence",
          "wall-clock waiting of the long-poll forms is not modelled"],
 })
+ASSUME.update({
+ "C13": ["a fault is an error returned by one lower-layer call (VFS, wrapped store, key-value store) without side effect of that call; partial effects inside a single lower-layer call are not injected (C03 covers torn writes)",
+         "the judge treats each call of the backend as atomic towards the client: a failed call either took effect or did not",
+         "the stat helper's workers are modelled sequentially with an oracle for 'the loop already sees the cancellation'; real goroutine timing is what the harness' one-slot gate makes deterministic",
+         "bounded completion is observed with a 3 s watchdog, not proved"],
+})
